@@ -112,7 +112,7 @@ class Path:
 
 class PathAI:
     def __init__(self, prog, fn, max_paths=4096, backedge_limit=1, writers=None, record_loads=True,
-                 assume=None, unroll=False):
+                 assume=None, unroll=False, peel=False):
         self.prog = prog
         self.fn = fn
         self.max_paths = max_paths
@@ -129,6 +129,9 @@ class PathAI:
             if v and t[0] == "icmp" and t[1] == "eq" and t[2][0] == "arg" and t[3][0] == "c":
                 self.arg_consts[t[2][1]] = t[3]
         self.unroll = unroll
+        # peel=True: the first visit of a loop header keeps the initial values of its phis (first iteration concrete);
+        # visits through the back edge are havocked as usual
+        self.peel = peel
         if unroll and backedge_limit == 1:
             self.backedge_limit = 130
         self._dom_cache = {}
@@ -308,7 +311,7 @@ class PathAI:
                     break
                 n += 1
                 oc = occ.get(iid, 0)
-                if blk["loophdr"] and not self.unroll:
+                if blk["loophdr"] and not self.unroll and not (self.peel and pred != -1 and not self.is_backedge(pred, b)):
                     newvals[iid] = ("havoc", iid, oc)
                     for v, pb in ins["inc"]:
                         if pb == pred:
@@ -326,10 +329,10 @@ class PathAI:
                     newvals[iid] = t
                 occ[iid] = oc + 1
             forced = None
-            if blk["loophdr"] and not self.unroll and pred != -1 and not self.is_backedge(pred, b):
+            if blk["loophdr"] and not self.unroll and not self.peel and pred != -1 and not self.is_backedge(pred, b):
                 forced = self._first_test(blk, ids, n, pred, env, facts)
             env.update(newvals)
-            if blk["loophdr"] and not self.unroll:
+            if blk["loophdr"] and not self.unroll and not (self.peel and pred != -1 and not self.is_backedge(pred, b)):
                 be = Ev("loophead", ids[0] if ids else 0, 0)
                 be.args = self.loop_written()[b]
                 be.idx = len(events)
